@@ -118,7 +118,24 @@ func main() {
 var (
 	rlog               = newRaceLog()
 	harnessOnlyReports int
+	liveReports        []raceReport
 )
+
+func init() {
+	if rlog != nil {
+		// reports written while an execution's unfinished threads are being killed are not observations of
+		// the program (deferred functions run with the modelled primitives switched off)
+		mc.BeforeTeardown = func() { liveReports = append(liveReports, rlog.collect()...) }
+	}
+}
+
+// takeReports returns the race reports of the execution that has just ended and drops those of its teardown.
+func takeReports() []raceReport {
+	out := liveReports
+	liveReports = nil
+	rlog.collect()
+	return out
+}
 
 func runInstance(i int, in checks.Instance, dl time.Time) (r vp.InstResult) {
 	t0 := time.Now()
@@ -141,7 +158,7 @@ func runInstance(i int, in checks.Instance, dl time.Time) (r vp.InstResult) {
 		e := &mc.Explorer{Bound: b, Root: in.Root, MaxSteps: in.MaxSteps, Deadline: dl, UseCache: !in.NoCache && b >= in.PruneFrom}
 		if rlog != nil {
 			e.End = func(s *mc.Sched) {
-				for _, rep := range rlog.collect() {
+				for _, rep := range takeReports() {
 					if !rep.lib {
 						harnessOnlyReports++
 						continue
@@ -243,7 +260,7 @@ func doReplay(path string) int {
 		return 1
 	}
 	addRaces := func(s *mc.Sched) {
-		for _, rep := range rlog.collect() {
+		for _, rep := range takeReports() {
 			if rep.lib {
 				s.Viol = append(s.Viol, mc.Violation{Rule: "C15/race", Key: rep.sig, Msg: "data race between " + rep.sig + "\n" + rep.text})
 			}
